@@ -284,11 +284,17 @@ DIM_FLAVOURS = {
     # then on the arguments ('warm'): clauses 1 and 2 for the LATER call, and what the caller holds from the earlier call
     # (its result, its arguments) is not changed by the later call
     'twice': 'sequence', 'warm': 'sequence',
-    # environment: the output file of save() exists already (overwrite=True); the other member of this family, another
-    # PYTHONHASHSEED in a new interpreter, is not a pool flavour (HASHSEED below)
-    'exists': 'environment',
+    # environment: the output file of save() exists already (overwrite=True).  (The other environment family, another
+    # PYTHONHASHSEED in a new interpreter, is not a pool flavour: HASHSEED below.)
+    'exists': 'outfile',
 }
-FAMILIES = ('typed', 'units', 'containers', 'groups', 'sizes', 'sequence', 'environment')
+FAMILIES = ('typed', 'units', 'containers', 'groups', 'sizes', 'sequence', 'outfile', 'hashseed')
+FAMILY_CODE = dict(zip(FAMILIES, 'TUCGSQOH'))
+HASHSEED = 1             # the sweep is repeated in a NEW interpreter started with this PYTHONHASHSEED (./check runs under 0)
+# callables that iterate over a set of names (their internal order depends on the hash seed): hashseed family, quick tier
+HASH_QUICK = ('rdm.combine.from_partials', 'rdm.combine.rescale', 'data.dataset.Dataset.from_df', 'data.ops.merge_datasets',
+              'data.dataset.merge_subsets', 'rdm.rdms.concat', 'rdm.rdms.RDMs.mean', 'util.descriptor_utils.desc_eq',
+              'util.rdm_utils.category_condition_idxs')
 SEQ_FLAVOURS = ('twice', 'warm')
 DIM_INT = {'int16': np.int16, 'uint8': np.uint8, 'int64': np.int64}
 DIM_SCALE = {'tiny': 1e-20, 'huge': 1e+9}
@@ -2209,8 +2215,19 @@ def orc_mean_weights(case):
     elif kind == 'none':
         W = None
         w = np.ones_like(d)
+    elif kind in ('int16', 'uint8'):                     # dimension sweep: further dtypes, units and containers of the weights
+        W = (np.round(w * 4) + 1).astype(kind)
+        w = W.astype(float)
+    elif kind in ('f64-tiny', 'f64-huge'):
+        w = w * (1e-20 if kind == 'f64-tiny' else 1e+9)
+        W = w.copy()
+    elif kind in ('list', 'tuple'):
+        W = [list(r) for r in w.tolist()]
+        if kind == 'tuple':
+            W = tuple(tuple(r) for r in W)
     else:
         raise ValueError(kind)
+    d = d * case.get('unit', 1.0)
     by_name = case['by_name']
     rd = {'subj': [f's{i}' for i in range(n_rdm)]}
     if by_name:
@@ -2221,6 +2238,12 @@ def orc_mean_weights(case):
     before_w = fp(W)
     with _quiet():
         res = rdms.mean(weights=('wts' if by_name else W))
+        if case.get('twice'):       # the call repeated: clause 1 holds for the later call too, and the held result is not changed by it
+            first, held = res, fp(res)
+            res = rdms.mean(weights=('wts' if by_name else W))
+            if fp(first) != held:
+                return 'the second mean(weights) changed the result of the first, held by the caller: ' + \
+                    '; '.join(t for _, t in fp_diff(held, fp(first))[:2])
     if fp(W) != before_w:
         return f'mean(weights={"name of rdm_descriptor" if by_name else kind + " array"}) modified the weights: ' + \
             '; '.join(t for _, t in fp_diff(before_w, fp(W))[:2])
@@ -2400,8 +2423,8 @@ def dim_plan(rec, thorough):
     plan = []
     for j, fam in enumerate(FAMILIES):
         fls = [f for f in DIM_FLAVOURS if DIM_FLAVOURS[f] == fam]
-        if fam == 'environment':
-            if save:
+        if fam in ('outfile', 'hashseed'):
+            if save and fam == 'outfile':
                 plan += [('exists', 2), ('exists', 3)]
             continue
         if q in SLOW and (i + j) % 3:
@@ -2437,6 +2460,543 @@ def dim_sweep(thorough, visit, only=None, flavours=None):
                 fr = (pl,) + _cached('fresh' + json.dumps(pl), case, lambda b: fresh_diffs(b, plan))
             visit(rec, case, diffs, fr)
     return n_ok
+
+
+# ---- another PYTHONHASHSEED ------------------------------------------------------------------------------
+_HASH = {}
+
+
+def _hash_key(case):
+    return json.dumps(_base(case), sort_keys=True)
+
+
+def _hash_child():
+    """runs in the NEW interpreter: stdin = {quals: [...] | null, cases: [...] | null}; stdout = one JSON line"""
+    import sys
+    req = json.loads(sys.stdin.read())
+    out = []
+
+    def one(case):
+        st, diffs, info = frame_diffs(case)
+        rec = dict(case=case, status=st, frame=diffs if st == 'ok' else [], why=None if st == 'ok' else diffs, plan=None, fresh=[],
+                   applied=0)
+        q = case['fn']
+        if st == 'ok' and q not in MUTATORS and q not in VIEW_BY_CONTRACT:
+            plan = plan_for(info, False)
+            if plan:
+                fs, fd, k = fresh_diffs(case, plan)
+                rec.update(plan=[list(x) for x in plan], fresh=fd if fs == 'ok' else [], applied=k)
+        out.append(rec)
+        return rec
+    for case in req.get('cases') or []:
+        one(_base(case))
+    for q in req.get('quals') or []:
+        r = recs().get(q)
+        if r is None:
+            continue
+        nv = MAX_VARIANTS if q in SPECS else AUTO_VARIANTS
+        if q in SLOW:
+            nv = min(nv, 2)
+        for fl in (('array',) if q in SLOW else ('array', 'negnan')):
+            for v in range(nv):
+                rec = one(dict(fn=q, flavour=fl, variant=v, seed=0))
+                if rec['status'] != 'ok' and 'no such variant' in str(rec['why']):
+                    out.pop()
+                    break
+    sys.stdout.write('\n@@C12HASH@@' + json.dumps(dict(hashseed=os.environ.get('PYTHONHASHSEED'), records=out), default=str) + '\n')
+
+
+def _hash_run(quals=None, cases=None, hashseed=HASHSEED):
+    """start a new interpreter with PYTHONHASHSEED=hashseed, run the cases there; fills _HASH; -> number of records"""
+    import subprocess
+    import sys
+    env = dict(os.environ, PYTHONHASHSEED=str(hashseed), MPLBACKEND='Agg', PYTHONDONTWRITEBYTECODE='1',
+               PYTHONPATH=os.pathsep.join(p for p in sys.path if p))
+    pr = subprocess.run([sys.executable, '-c', 'import contracts.C12_c as m; m._hash_child()'], env=env, text=True,
+                        input=json.dumps(dict(quals=quals, cases=cases)), capture_output=True, timeout=1500)
+    tail = [ln for ln in pr.stdout.split('\n') if ln.startswith('@@C12HASH@@')]
+    if pr.returncode != 0 or not tail:
+        raise RuntimeError(f'interpreter with PYTHONHASHSEED={hashseed} failed (rc={pr.returncode}): {pr.stderr[-400:]}')
+    data = json.loads(tail[-1][len('@@C12HASH@@'):])
+    if str(data['hashseed']) != str(hashseed):
+        raise RuntimeError('the new interpreter did not run under the requested hash seed')
+    for r in data['records']:
+        _HASH[(hashseed, _hash_key(r['case']))] = r
+    return len(data['records'])
+
+
+@oracle('C12/hashseed')
+def orc_hashseed(case):
+    """clauses 1 and 2 in a NEW interpreter started with PYTHONHASHSEED = case['hashseed'] (set iteration order differs).
+    case: fn, flavour, variant, seed, hashseed [, watch = only this label]"""
+    key = (case['hashseed'], _hash_key(case))
+    if key not in _HASH:
+        _hash_run(cases=[_base(case)], hashseed=case['hashseed'])
+    r = _HASH[key]
+    diffs = [tuple(x) for x in (r['frame'] + r['fresh'])]
+    return _pick(r['status'], diffs, case)
+
+
+# ---- pending triage --------------------------------------------------------------------------------------
+# Failures of the dimension sweep on the UNCHANGED tree.  Every case of the dimension sweep is registered under its own input class
+# '<label>@<family>' (never under a key of the base sweep).  Registrations listed here are skipped -- the equivalent of
+# `if False:  # pending triage: <class>` for a discovered sweep -- until the main session has repaired or recorded them;
+# the number of skipped registrations is stated in the domain string of the run.  label -> codes of the families
+# (T typed, U units, C containers, G groups, S sizes, Q sequence, O outfile, H hashseed) in which it was observed.
+PENDING_NEW = {        # failure kinds that do NOT occur in the base sweep (reported to the main session with minimal inputs)
+    'bootstrap_sample:child-array-write-relabels-parent.rdms': 'C',
+    'bootstrap_sample:parent-array-write-relabels-child': 'C',
+    'extract_variances:child-array-write-rewrites-parent.variance': 'U',
+    'from_partials:child-array-write-relabels-parent.list_of_rdms': 'C',
+    'from_partials:parent-array-write-relabels-child': 'C',
+    'sets_k_fold:child-array-write-relabels-parent.rdms': 'C',
+    'sets_k_fold:parent-array-write-relabels-child': 'C',
+    'sets_random:child-array-write-relabels-parent.rdms': 'C',
+    'sets_random:parent-array-write-relabels-child': 'C',
+}
+# the same (callable, argument, in-place operation) as one of the 378 keys of the base sweep listed in known_findings.json when this
+# was written (2026-10), observed again on the inputs of these families: one line '<label> <family codes>' each
+PENDING_REOBSERVED = dict(ln.rsplit(' ', 1) for ln in """
+Dataset.split_channel:child-array-write-relabels-parent.self CH
+Dataset.split_channel:parent-array-write-relabels-child CH
+Dataset.split_obs:child-array-write-relabels-parent.self CH
+Dataset.split_obs:parent-array-write-relabels-child CH
+Dataset.subset_channel:child-array-write-relabels-parent.self CH
+Dataset.subset_channel:parent-array-write-relabels-child CH
+Dataset.subset_obs:child-array-write-relabels-parent.self CH
+Dataset.subset_obs:parent-array-write-relabels-child CH
+DatasetBase.__init__:child-array-write-relabels-parent.channel_descriptors CH
+DatasetBase.__init__:child-array-write-relabels-parent.obs_descriptors CH
+DatasetBase.__init__:child-array-write-rewrites-parent.measurements TUCGSQH
+DatasetBase.__init__:parent-array-write-rewrites-child TUCGSQH
+DatasetBase.to_dict:child-array-write-rewrites-parent.self TUCGSQH
+DatasetBase.to_dict:parent-array-write-rewrites-child TUCGSQH
+Model.to_dict:child-array-write-rewrites-parent.self TUCGSQH
+Model.to_dict:parent-append-relabels-child TUCGSQH
+Model.to_dict:parent-array-write-rewrites-child TUCGSQH
+Model.to_dict:parent-reorder-relabels-child TUCGSQH
+Model.to_dict:parent-sort_by-relabels-child TUCGSQH
+ModelFamily.__init__:child-append-rewrites-parent.models TUCGSQH
+ModelFamily.__init__:child-array-write-rewrites-parent.models TUCGSQH
+ModelFamily.__init__:child-reorder-rewrites-parent.models TUCGSQH
+ModelFamily.__init__:child-sort_by-rewrites-parent.models TUCGSQH
+ModelFamily.__init__:parent-append-rewrites-child TUCGSQH
+ModelFamily.__init__:parent-array-write-rewrites-child TUCGSQH
+ModelFamily.__init__:parent-reorder-rewrites-child TUCGSQH
+ModelFamily.__init__:parent-sort_by-rewrites-child TUCGSQH
+ModelFamily.get_family_member:child-append-rewrites-parent.self TUCGSQH
+ModelFamily.get_family_member:child-array-write-rewrites-parent.self TUCGSQH
+ModelFamily.get_family_member:child-reorder-rewrites-parent.self TUCGSQH
+ModelFamily.get_family_member:child-sort_by-rewrites-parent.self TUCGSQH
+ModelFamily.get_family_member:parent-append-rewrites-child TUCGSQH
+ModelFamily.get_family_member:parent-array-write-rewrites-child TUCGSQH
+ModelFamily.get_family_member:parent-reorder-rewrites-child TUCGSQH
+ModelFamily.get_family_member:parent-sort_by-rewrites-child TUCGSQH
+ModelFixed.__init__:child-append-rewrites-parent.rdm TUCGSQH
+ModelFixed.__init__:child-array-write-rewrites-parent.rdm TUCGSQH
+ModelFixed.__init__:child-reorder-rewrites-parent.rdm TUCGSQH
+ModelFixed.__init__:child-sort_by-rewrites-parent.rdm TUCGSQH
+ModelFixed.__init__:parent-append-rewrites-child TUCGSQH
+ModelFixed.__init__:parent-array-write-rewrites-child TUCGSQH
+ModelFixed.__init__:parent-reorder-rewrites-child TUCGSQH
+ModelFixed.__init__:parent-sort_by-rewrites-child TUCGSQH
+ModelFixed.predict:child-array-write-rewrites-parent.self TUCGSQH
+ModelFixed.predict:parent-array-write-rewrites-child TUCGSQH
+ModelFixed.predict_rdm:child-append-rewrites-parent.self TUCGSQH
+ModelFixed.predict_rdm:child-array-write-rewrites-parent.self TUCGSQH
+ModelFixed.predict_rdm:child-reorder-rewrites-parent.self TUCGSQH
+ModelFixed.predict_rdm:child-sort_by-rewrites-parent.self TUCGSQH
+ModelFixed.predict_rdm:parent-append-rewrites-child TUCGSQH
+ModelFixed.predict_rdm:parent-array-write-rewrites-child TUCGSQH
+ModelFixed.predict_rdm:parent-reorder-rewrites-child TUCGSQH
+ModelFixed.predict_rdm:parent-sort_by-rewrites-child TUCGSQH
+ModelInterpolate.__init__:child-append-rewrites-parent.rdm TUCGSQH
+ModelInterpolate.__init__:child-array-write-rewrites-parent.rdm TUCGSQH
+ModelInterpolate.__init__:child-reorder-rewrites-parent.rdm TUCGSQH
+ModelInterpolate.__init__:child-sort_by-rewrites-parent.rdm TUCGSQH
+ModelInterpolate.__init__:parent-append-rewrites-child TUCGSQH
+ModelInterpolate.__init__:parent-array-write-rewrites-child TUCGSQH
+ModelInterpolate.__init__:parent-reorder-rewrites-child TUCGSQH
+ModelInterpolate.__init__:parent-sort_by-rewrites-child TUCGSQH
+ModelInterpolate.predict_rdm:child-array-write-relabels-parent.self CH
+ModelInterpolate.predict_rdm:child-reorder-relabels-parent.self TUCGSQH
+ModelInterpolate.predict_rdm:child-sort_by-relabels-parent.self TUCGSQH
+ModelInterpolate.predict_rdm:parent-array-write-relabels-child CH
+ModelInterpolate.predict_rdm:parent-reorder-relabels-child TUCGSQH
+ModelInterpolate.predict_rdm:parent-sort_by-relabels-child TUCGSQH
+ModelSelect.__init__:child-append-rewrites-parent.rdm TUCGSQH
+ModelSelect.__init__:child-array-write-rewrites-parent.rdm TUCGSQH
+ModelSelect.__init__:child-reorder-rewrites-parent.rdm TUCGSQH
+ModelSelect.__init__:child-sort_by-rewrites-parent.rdm TUCGSQH
+ModelSelect.__init__:parent-append-rewrites-child TUCGSQH
+ModelSelect.__init__:parent-array-write-rewrites-child TUCGSQH
+ModelSelect.__init__:parent-reorder-rewrites-child TUCGSQH
+ModelSelect.__init__:parent-sort_by-rewrites-child TUCGSQH
+ModelSelect.predict:child-array-write-rewrites-parent.self TUCGSQH
+ModelSelect.predict:parent-array-write-rewrites-child TUCGSQH
+ModelSelect.predict_rdm:child-array-write-relabels-parent.self CH
+ModelSelect.predict_rdm:child-reorder-relabels-parent.self TUCGSQH
+ModelSelect.predict_rdm:child-sort_by-relabels-parent.self TUCGSQH
+ModelSelect.predict_rdm:parent-array-write-relabels-child CH
+ModelSelect.predict_rdm:parent-reorder-relabels-child TUCGSQH
+ModelSelect.predict_rdm:parent-sort_by-relabels-child TUCGSQH
+ModelWeighted.__init__:child-append-rewrites-parent.rdm TUCGSQH
+ModelWeighted.__init__:child-array-write-rewrites-parent.rdm TUCGSQH
+ModelWeighted.__init__:child-reorder-rewrites-parent.rdm TUCGSQH
+ModelWeighted.__init__:child-sort_by-rewrites-parent.rdm TUCGSQH
+ModelWeighted.__init__:parent-append-rewrites-child TUCGSQH
+ModelWeighted.__init__:parent-array-write-rewrites-child TUCGSQH
+ModelWeighted.__init__:parent-reorder-rewrites-child TUCGSQH
+ModelWeighted.__init__:parent-sort_by-rewrites-child TUCGSQH
+ModelWeighted.predict_rdm:child-array-write-relabels-parent.self CH
+ModelWeighted.predict_rdm:child-reorder-relabels-parent.self TUCGSQH
+ModelWeighted.predict_rdm:child-sort_by-relabels-parent.self TUCGSQH
+ModelWeighted.predict_rdm:parent-array-write-relabels-child CH
+ModelWeighted.predict_rdm:parent-reorder-relabels-child TUCGSQH
+ModelWeighted.predict_rdm:parent-sort_by-relabels-child TUCGSQH
+RDMs.__getitem__:child-array-write-relabels-parent.self CH
+RDMs.__getitem__:child-reorder-relabels-parent.self TUCGSQH
+RDMs.__getitem__:child-sort_by-relabels-parent.self TUCGSQH
+RDMs.__getitem__:parent-array-write-relabels-child CH
+RDMs.__getitem__:parent-reorder-relabels-child TUCGSQH
+RDMs.__getitem__:parent-sort_by-relabels-child TUCGSQH
+RDMs.__init__:child-append-relabels-parent.rdm_descriptors TUCGSQH
+RDMs.__init__:child-array-write-relabels-parent.pattern_descriptors H
+RDMs.__init__:child-array-write-relabels-parent.rdm_descriptors H
+RDMs.__init__:child-array-write-rewrites-parent.dissimilarities TUCGSQH
+RDMs.__init__:child-reorder-relabels-parent.pattern_descriptors TUCGSQH
+RDMs.__init__:child-sort_by-relabels-parent.pattern_descriptors TUCGSQH
+RDMs.__init__:modifies-rdm_descriptors TUCGSQH
+RDMs.__init__:parent-array-write-relabels-child H
+RDMs.__init__:parent-array-write-rewrites-child TUCGSQH
+RDMs.subsample:child-array-write-relabels-parent.self CH
+RDMs.subsample:child-reorder-relabels-parent.self TUCGSQH
+RDMs.subsample:child-sort_by-relabels-parent.self TUCGSQH
+RDMs.subsample:parent-array-write-relabels-child CH
+RDMs.subsample:parent-reorder-relabels-child TUCGSQH
+RDMs.subsample:parent-sort_by-relabels-child TUCGSQH
+RDMs.subsample_pattern:child-append-relabels-parent.self TUCGSQH
+RDMs.subsample_pattern:child-array-write-relabels-parent.self CH
+RDMs.subsample_pattern:parent-append-relabels-child TUCGSQH
+RDMs.subsample_pattern:parent-array-write-relabels-child CH
+RDMs.subset:child-array-write-relabels-parent.self CH
+RDMs.subset:child-reorder-relabels-parent.self TUCGSQH
+RDMs.subset:child-sort_by-relabels-parent.self TUCGSQH
+RDMs.subset:parent-array-write-relabels-child CH
+RDMs.subset:parent-reorder-relabels-child TUCGSQH
+RDMs.subset:parent-sort_by-relabels-child TUCGSQH
+RDMs.subset_pattern:child-append-relabels-parent.self TUCGSQH
+RDMs.subset_pattern:child-array-write-relabels-parent.self CH
+RDMs.subset_pattern:parent-append-relabels-child TUCGSQH
+RDMs.subset_pattern:parent-array-write-relabels-child CH
+RDMs.to_dict:child-array-write-rewrites-parent.self TUCGSQH
+RDMs.to_dict:parent-append-relabels-child TUCGSQH
+RDMs.to_dict:parent-array-write-rewrites-child TUCGSQH
+RDMs.to_dict:parent-reorder-relabels-child TUCGSQH
+RDMs.to_dict:parent-sort_by-relabels-child TUCGSQH
+Result.__init__:child-append-rewrites-parent.models TUCGSQH
+Result.__init__:child-array-write-rewrites-parent.models TUCGSQH
+Result.__init__:child-array-write-rewrites-parent.variances TUCGSQH
+Result.__init__:child-reorder-rewrites-parent.models TUCGSQH
+Result.__init__:child-sort_by-rewrites-parent.models TUCGSQH
+Result.__init__:parent-append-rewrites-child TUCGSQH
+Result.__init__:parent-array-write-rewrites-child TUCGSQH
+Result.__init__:parent-reorder-rewrites-child TUCGSQH
+Result.__init__:parent-sort_by-rewrites-child TUCGSQH
+Result.get_model_var:child-array-write-rewrites-parent.self TUCGSQH
+Result.get_model_var:parent-array-write-rewrites-child TUCGSQH
+Result.get_noise_ceil:child-array-write-rewrites-parent.self TUCGSQH
+Result.get_noise_ceil:parent-array-write-rewrites-child TUCGSQH
+Result.to_dict:child-array-write-rewrites-parent.self TUCGSQH
+Result.to_dict:parent-append-relabels-child TUCGSQH
+Result.to_dict:parent-array-write-rewrites-child TUCGSQH
+Result.to_dict:parent-reorder-relabels-child TUCGSQH
+Result.to_dict:parent-sort_by-relabels-child TUCGSQH
+TemporalDataset.__init__:child-array-write-relabels-parent.channel_descriptors H
+TemporalDataset.__init__:child-array-write-relabels-parent.obs_descriptors CH
+TemporalDataset.__init__:child-array-write-relabels-parent.time_descriptors TUCGSQH
+TemporalDataset.__init__:child-array-write-rewrites-parent.measurements TUCGSQH
+TemporalDataset.__init__:parent-array-write-rewrites-child TUCGSQH
+TemporalDataset.convert_to_dataset:child-array-write-relabels-parent.self H
+TemporalDataset.convert_to_dataset:parent-array-write-relabels-child H
+TemporalDataset.split_channel:child-array-write-relabels-parent.self TUCGSQH
+TemporalDataset.split_channel:parent-array-write-relabels-child TUCGSQH
+TemporalDataset.split_obs:child-array-write-relabels-parent.self TUCGSQH
+TemporalDataset.split_obs:parent-array-write-relabels-child TUCGSQH
+TemporalDataset.split_time:child-array-write-relabels-parent.self CH
+TemporalDataset.split_time:parent-array-write-relabels-child CH
+TemporalDataset.subset_channel:child-array-write-relabels-parent.self TUCGSQH
+TemporalDataset.subset_channel:parent-array-write-relabels-child TUCGSQH
+TemporalDataset.subset_obs:child-array-write-relabels-parent.self TUCGSQH
+TemporalDataset.subset_obs:parent-array-write-relabels-child TUCGSQH
+TemporalDataset.subset_time:child-array-write-relabels-parent.self CH
+TemporalDataset.subset_time:parent-array-write-relabels-child CH
+TemporalDataset.time_as_channels:child-array-write-rewrites-parent.self TUCGSQH
+TemporalDataset.time_as_channels:parent-array-write-rewrites-child TUCGSQH
+TemporalDataset.time_as_observations:child-array-write-relabels-parent.self H
+TemporalDataset.time_as_observations:parent-array-write-relabels-child H
+TemporalDataset.to_dict:child-array-write-rewrites-parent.self TUCGSQH
+TemporalDataset.to_dict:parent-array-write-rewrites-child TUCGSQH
+batch_to_matrices:child-array-write-rewrites-parent.x TUCGSQH
+batch_to_matrices:parent-array-write-rewrites-child TUCGSQH
+batch_to_vectors:child-array-write-rewrites-parent.x TUCGSQH
+batch_to_vectors:parent-array-write-rewrites-child TUCGSQH
+bootstrap_crossval:child-append-rewrites-parent.models TUCGSH
+bootstrap_crossval:child-array-write-rewrites-parent.models TUCGSH
+bootstrap_crossval:child-reorder-rewrites-parent.models TUCGSH
+bootstrap_crossval:child-sort_by-rewrites-parent.models TUCGSH
+bootstrap_crossval:parent-append-rewrites-child TUCGSH
+bootstrap_crossval:parent-array-write-rewrites-child TUCGSH
+bootstrap_crossval:parent-reorder-rewrites-child TUCGSH
+bootstrap_crossval:parent-sort_by-rewrites-child TUCGSH
+bootstrap_sample_pattern:child-append-relabels-parent.rdms TUCGSQH
+bootstrap_sample_pattern:child-array-write-relabels-parent.rdms CH
+bootstrap_sample_pattern:parent-append-relabels-child TUCGSQH
+bootstrap_sample_pattern:parent-array-write-relabels-child CH
+bootstrap_sample_rdm:child-array-write-relabels-parent.rdms CH
+bootstrap_sample_rdm:child-reorder-relabels-parent.rdms TUCGSQH
+bootstrap_sample_rdm:child-sort_by-relabels-parent.rdms TUCGSQH
+bootstrap_sample_rdm:parent-array-write-relabels-child CH
+bootstrap_sample_rdm:parent-reorder-relabels-child TUCGSQH
+bootstrap_sample_rdm:parent-sort_by-relabels-child TUCGSQH
+calc_rdm:child-array-write-rewrites-parent.noise TUCGQH
+calc_rdm:parent-array-write-relabels-child TUCGQH
+calc_rdm_crossnobis:child-array-write-rewrites-parent.noise TUCQH
+calc_rdm_crossnobis:parent-array-write-relabels-child TUCQH
+calc_rdm_mahalanobis:child-array-write-rewrites-parent.noise TUCGQH
+calc_rdm_mahalanobis:parent-array-write-relabels-child TUCGQH
+calc_rdm_movie:child-array-write-relabels-parent.dataset TUCGSQH
+calc_rdm_movie:parent-array-write-relabels-child TUCGSQH
+calc_rdm_unbalanced:child-array-write-rewrites-parent.noise TUCGSQH
+calc_rdm_unbalanced:parent-array-write-relabels-child TUCGSQH
+concat:child-array-write-relabels-parent.rdms CH
+concat:child-reorder-relabels-parent.rdms TUCGSQH
+concat:child-sort_by-relabels-parent.rdms TUCGSQH
+concat:modifies-rdms.dissimilarities TUCGSQH
+concat:modifies-rdms.pattern_descriptors TUCGSQH
+concat:parent-array-write-relabels-child CH
+concat:parent-reorder-relabels-child TUCGSQH
+concat:parent-sort_by-relabels-child TUCGSQH
+crossval:child-append-rewrites-parent.models TUCGSH
+crossval:child-array-write-rewrites-parent.models TUCGSH
+crossval:child-reorder-rewrites-parent.models TUCGSH
+crossval:child-sort_by-rewrites-parent.models TUCGSH
+crossval:parent-append-rewrites-child TUCGSH
+crossval:parent-array-write-rewrites-child TUCGSH
+crossval:parent-reorder-rewrites-child TUCGSH
+crossval:parent-sort_by-rewrites-child TUCGSH
+dataset_from_dict:child-array-write-rewrites-parent.data_dict TUCGSQH
+dataset_from_dict:parent-array-write-rewrites-child TUCGSQH
+dict_to_list:modifies-d_dict TUCGSQH
+eval_bootstrap:child-append-rewrites-parent.models TUCGSH
+eval_bootstrap:child-array-write-rewrites-parent.models TUCGSH
+eval_bootstrap:child-reorder-rewrites-parent.models TUCGSH
+eval_bootstrap:child-sort_by-rewrites-parent.models TUCGSH
+eval_bootstrap:parent-append-rewrites-child TUCGSH
+eval_bootstrap:parent-array-write-rewrites-child TUCGSH
+eval_bootstrap:parent-reorder-rewrites-child TUCGSH
+eval_bootstrap:parent-sort_by-rewrites-child TUCGSH
+eval_bootstrap_pattern:child-append-rewrites-parent.models TUCGSH
+eval_bootstrap_pattern:child-array-write-rewrites-parent.models TUCGSH
+eval_bootstrap_pattern:child-reorder-rewrites-parent.models TUCGSH
+eval_bootstrap_pattern:child-sort_by-rewrites-parent.models TUCGSH
+eval_bootstrap_pattern:parent-append-rewrites-child TUCGSH
+eval_bootstrap_pattern:parent-array-write-rewrites-child TUCGSH
+eval_bootstrap_pattern:parent-reorder-rewrites-child TUCGSH
+eval_bootstrap_pattern:parent-sort_by-rewrites-child TUCGSH
+eval_bootstrap_rdm:child-append-rewrites-parent.models TUCGSH
+eval_bootstrap_rdm:child-array-write-rewrites-parent.models TUCGSH
+eval_bootstrap_rdm:child-reorder-rewrites-parent.models TUCGSH
+eval_bootstrap_rdm:child-sort_by-rewrites-parent.models TUCGSH
+eval_bootstrap_rdm:parent-append-rewrites-child TUCGSH
+eval_bootstrap_rdm:parent-array-write-rewrites-child TUCGSH
+eval_bootstrap_rdm:parent-reorder-rewrites-child TUCGSH
+eval_bootstrap_rdm:parent-sort_by-rewrites-child TUCGSH
+eval_dual_bootstrap:child-append-rewrites-parent.models TUCGSH
+eval_dual_bootstrap:child-array-write-rewrites-parent.models TUCGSH
+eval_dual_bootstrap:child-reorder-rewrites-parent.models TUCGSH
+eval_dual_bootstrap:child-sort_by-rewrites-parent.models TUCGSH
+eval_dual_bootstrap:parent-append-rewrites-child TUCGSH
+eval_dual_bootstrap:parent-array-write-rewrites-child TUCGSH
+eval_dual_bootstrap:parent-reorder-rewrites-child TUCGSH
+eval_dual_bootstrap:parent-sort_by-rewrites-child TUCGSH
+eval_dual_bootstrap_random:child-append-rewrites-parent.models TUCGSH
+eval_dual_bootstrap_random:child-array-write-rewrites-parent.models TUCGSH
+eval_dual_bootstrap_random:child-reorder-rewrites-parent.models TUCGSH
+eval_dual_bootstrap_random:child-sort_by-rewrites-parent.models TUCGSH
+eval_dual_bootstrap_random:parent-append-rewrites-child TUCGSH
+eval_dual_bootstrap_random:parent-array-write-rewrites-child TUCGSH
+eval_dual_bootstrap_random:parent-reorder-rewrites-child TUCGSH
+eval_dual_bootstrap_random:parent-sort_by-rewrites-child TUCGSH
+eval_fixed:child-append-rewrites-parent.models TUCGSH
+eval_fixed:child-array-write-rewrites-parent.models TUCGSH
+eval_fixed:child-reorder-rewrites-parent.models TUCGSH
+eval_fixed:child-sort_by-rewrites-parent.models TUCGSH
+eval_fixed:parent-append-rewrites-child TUCGSH
+eval_fixed:parent-array-write-rewrites-child TUCGSH
+eval_fixed:parent-reorder-rewrites-child TUCGSH
+eval_fixed:parent-sort_by-rewrites-child TUCGSH
+evaluate_models_searchlight:child-append-rewrites-parent.models TUCGSH
+evaluate_models_searchlight:child-array-write-rewrites-parent.models TUCGSH
+evaluate_models_searchlight:child-reorder-rewrites-parent.models TUCGSH
+evaluate_models_searchlight:child-sort_by-rewrites-parent.models TUCGSH
+evaluate_models_searchlight:parent-append-rewrites-child TUCGSH
+evaluate_models_searchlight:parent-array-write-rewrites-child TUCGSH
+evaluate_models_searchlight:parent-reorder-rewrites-child TUCGSH
+evaluate_models_searchlight:parent-sort_by-rewrites-child TUCGSH
+extract_variances:parent-array-write-rewrites-child TUCGSQH
+geodesic_transform:child-array-write-rewrites-parent.rdms TUCGSH
+geodesic_transform:modifies-rdms.dissimilarities TUCGSH
+geodesic_transform:parent-array-write-rewrites-child TUCGSH
+inference_util.pool_rdm:child-array-write-relabels-parent.rdms CH
+inference_util.pool_rdm:child-reorder-relabels-parent.rdms TUCGSQH
+inference_util.pool_rdm:child-sort_by-relabels-parent.rdms TUCGSQH
+inference_util.pool_rdm:parent-array-write-relabels-child CH
+inference_util.pool_rdm:parent-reorder-relabels-child TUCGSQH
+inference_util.pool_rdm:parent-sort_by-relabels-child TUCGSQH
+input_check_model:child-append-rewrites-parent.models TUCGSQH
+input_check_model:child-array-write-rewrites-parent.models TUCGSQH
+input_check_model:child-array-write-rewrites-parent.theta TUCGSQH
+input_check_model:child-reorder-rewrites-parent.models TUCGSQH
+input_check_model:child-sort_by-rewrites-parent.models TUCGSQH
+input_check_model:parent-append-rewrites-child TUCGSQH
+input_check_model:parent-array-write-rewrites-child TUCGSQH
+input_check_model:parent-reorder-rewrites-child TUCGSQH
+input_check_model:parent-sort_by-rewrites-child TUCGSQH
+inverse_permute_rdms:child-array-write-relabels-parent.rdms CH
+inverse_permute_rdms:parent-array-write-relabels-child CH
+minmax_transform:child-array-write-rewrites-parent.rdms TUCGSQH
+minmax_transform:modifies-rdms.dissimilarities TUCGSQH
+minmax_transform:parent-array-write-rewrites-child TUCGSQH
+model_from_dict:child-append-relabels-parent.model_dict TUCGSQH
+model_from_dict:child-array-write-rewrites-parent.model_dict TUCGSQH
+model_from_dict:child-reorder-relabels-parent.model_dict TUCGSQH
+model_from_dict:child-sort_by-relabels-parent.model_dict TUCGSQH
+model_from_dict:modifies-model_dict[rdm][pattern_descriptors] CH
+model_from_dict:modifies-model_dict[rdm][rdm_descriptors] CH
+model_from_dict:parent-array-write-rewrites-child TUCGSQH
+parse_input_descriptor:child-array-write-relabels-parent.descriptors H
+parse_input_descriptor:parent-array-write-rewrites-child H
+permute_rdms:child-array-write-relabels-parent.rdms CH
+permute_rdms:parent-array-write-relabels-child CH
+pooling.pool_rdm:child-array-write-relabels-parent.rdms CH
+pooling.pool_rdm:child-reorder-relabels-parent.rdms TUCGSQH
+pooling.pool_rdm:child-sort_by-relabels-parent.rdms TUCGSQH
+pooling.pool_rdm:parent-array-write-relabels-child CH
+pooling.pool_rdm:parent-reorder-relabels-child TUCGSQH
+pooling.pool_rdm:parent-sort_by-relabels-child TUCGSQH
+positive_transform:child-array-write-rewrites-parent.rdms TUCGSQH
+positive_transform:modifies-rdms.dissimilarities QH
+positive_transform:parent-array-write-rewrites-child TUCGSQH
+rdms_from_dict:child-append-relabels-parent.rdm_dict TUCGSQH
+rdms_from_dict:child-array-write-rewrites-parent.rdm_dict TUCGSQH
+rdms_from_dict:child-reorder-relabels-parent.rdm_dict TUCGSQH
+rdms_from_dict:child-sort_by-relabels-parent.rdm_dict TUCGSQH
+rdms_from_dict:modifies-rdm_dict[pattern_descriptors] TUCGSQH
+rdms_from_dict:modifies-rdm_dict[rdm_descriptors] CH
+rdms_from_dict:parent-array-write-rewrites-child TUCGSQH
+result_from_dict:child-append-relabels-parent.result_dict TUCGSQH
+result_from_dict:child-array-write-rewrites-parent.result_dict TUCGSQH
+result_from_dict:child-reorder-relabels-parent.result_dict TUCGSQH
+result_from_dict:child-sort_by-relabels-parent.result_dict TUCGSQH
+result_from_dict:modifies-result_dict[models][model_*][rdm][pattern_descriptors] CH
+result_from_dict:modifies-result_dict[models][model_*][rdm][rdm_descriptors] CH
+result_from_dict:parent-array-write-rewrites-child TUCGSQH
+sets_k_fold_pattern:child-append-relabels-parent.rdms TUCGSQH
+sets_k_fold_pattern:child-array-write-relabels-parent.rdms CH
+sets_k_fold_pattern:parent-append-relabels-child TUCGSQH
+sets_k_fold_pattern:parent-array-write-relabels-child CH
+sets_k_fold_rdm:child-array-write-relabels-parent.rdms CH
+sets_k_fold_rdm:child-reorder-relabels-parent.rdms CH
+sets_k_fold_rdm:child-sort_by-relabels-parent.rdms TUCGSQH
+sets_k_fold_rdm:parent-array-write-relabels-child CH
+sets_k_fold_rdm:parent-reorder-relabels-child TUCGSQH
+sets_k_fold_rdm:parent-sort_by-relabels-child TUCGSQH
+sets_leave_one_out_pattern:child-append-relabels-parent.rdms TUCGSQH
+sets_leave_one_out_pattern:child-array-write-relabels-parent.rdms CH
+sets_leave_one_out_pattern:parent-append-relabels-child TUCGSQH
+sets_leave_one_out_pattern:parent-array-write-relabels-child CH
+sets_leave_one_out_rdm:child-array-write-relabels-parent.rdms CH
+sets_leave_one_out_rdm:child-reorder-relabels-parent.rdms CH
+sets_leave_one_out_rdm:child-sort_by-relabels-parent.rdms TUCGSQH
+sets_leave_one_out_rdm:parent-array-write-relabels-child CH
+sets_leave_one_out_rdm:parent-reorder-relabels-child TUCGSQH
+sets_leave_one_out_rdm:parent-sort_by-relabels-child TUCGSQH
+sets_of_k_pattern:child-append-relabels-parent.rdms TUCGSQH
+sets_of_k_pattern:child-array-write-relabels-parent.rdms CH
+sets_of_k_pattern:parent-append-relabels-child TUCGSQH
+sets_of_k_pattern:parent-array-write-relabels-child CH
+sets_of_k_rdm:child-array-write-relabels-parent.rdms CH
+sets_of_k_rdm:child-reorder-relabels-parent.rdms CH
+sets_of_k_rdm:child-sort_by-relabels-parent.rdms TUCGSQH
+sets_of_k_rdm:parent-array-write-relabels-child CH
+sets_of_k_rdm:parent-reorder-relabels-child TUCGSQH
+sets_of_k_rdm:parent-sort_by-relabels-child TUCGSQH
+sqrt_transform:modifies-rdms.dissimilarities QH
+weight_to_matrices:child-array-write-rewrites-parent.x TUCGSQH
+weight_to_matrices:parent-array-write-rewrites-child TUCGSQH
+""".strip().split('\n'))
+
+
+def _pending(label, family):
+    c = FAMILY_CODE[family]
+    return c in PENDING_NEW.get(label, '') or c in PENDING_REOBSERVED.get(label, '')
+
+
+def tier_c_dims(run, thorough):
+    """the dimension sweep (DIM_FLAVOURS + another hash seed): clauses 1 and 2 under '<label>@<family>' input classes"""
+    bf = Bounded(run, 'C12/frame-dims', 'C12/frame/oracle/arguments-unchanged', '', function='every discovered public callable')
+    bi = Bounded(run, 'C12/fresh-dims', 'C12/fresh/oracle/result-source-independent', '', function='every discovered public callable')
+    skipped = {}
+    n_ops = [0]
+
+    def register(rec, case, diffs, fr, fam, frame_orc, fresh_orc):
+        if not diffs:
+            bf.check(frame_orc, case, 'unchanged@' + fam, function=rec.qual)
+        for label, _ in diffs:
+            if _pending(label, fam):      # pending triage: <label>@<fam>
+                skipped[f'{label}@{fam}'] = skipped.get(f'{label}@{fam}', 0) + 1
+                continue
+            bf.check(frame_orc, dict(case, watch=label), f'{label}@{fam}', function=rec.qual)
+        if fr is not None:
+            pl, st, fd, k = fr
+            n_ops[0] += k
+            c2 = dict(case, plan=pl)
+            if st == 'ok' and not fd:
+                bi.check(fresh_orc, c2, 'independent@' + fam, nontrivial=bool(k), function=rec.qual)
+            for label, _ in (fd if st == 'ok' else []):
+                if _pending(label, fam):  # pending triage: <label>@<fam>
+                    skipped[f'{label}@{fam}'] = skipped.get(f'{label}@{fam}', 0) + 1
+                    continue
+                bi.check(fresh_orc, dict(c2, watch=label), f'{label}@{fam}', function=rec.qual)
+
+    def visit(rec, case, diffs, fr):
+        register(rec, case, diffs, fr, DIM_FLAVOURS[case['flavour']], orc_frame, orc_fresh)
+    n_ok = dim_sweep(thorough, visit)
+    # another hash seed, in a new interpreter
+    quals = sorted(recs()) if thorough else [q for q in HASH_QUICK if q in recs()]
+    n_hash = _hash_run(quals=quals)
+    for (hs, _), r in sorted(_HASH.items()):
+        if hs != HASHSEED or r['status'] != 'ok' or r['case']['fn'] not in recs():
+            continue
+        case = dict(r['case'], hashseed=hs)
+        fr = None if r['plan'] is None else (r['plan'], 'ok', [tuple(x) for x in r['fresh']], r['applied'])
+        register(recs()[r['case']['fn']], case, [tuple(x) for x in r['frame']], fr, 'hashseed', orc_hashseed, orc_hashseed)
+    dom = ('dimension sweep, seed 0: pool flavours ' + ', '.join(f'{fl} ({n_ok.get(fl, 0)} calls)' for fl in DIM_FLAVOURS)
+           + (' x every argument variant' if thorough else '; quick: per callable ONE (flavour, variant) per family, rotating with the '
+              'name of the callable') + f'; new interpreter with PYTHONHASHSEED={HASHSEED}: '
+           + ('every callable' if thorough else f'{len(quals)} callables that iterate over sets of names') + f' ({n_hash} calls), '
+           'flavours array / negnan; input classes <label>@<family>')
+    if skipped:
+        dom += (f'; PENDING TRIAGE: {sum(skipped.values())} failing registrations of {len(skipped)} input classes skipped '
+                f'(PENDING_NEW / PENDING_REOBSERVED in contracts/C12_c.py)')
+        run.notes.append(f'C12 tier C, dimension sweep: {len(skipped)} failing input classes are pending triage and were NOT '
+                         f'registered ({sum(skipped.values())} cases); see PENDING_NEW / PENDING_REOBSERVED in contracts/C12_c.py')
+    bf.domain = dom
+    bi.domain = dom + f'; in-place operations {list(MUTS)} ({n_ops[0]} applications)'
+    bf.done()
+    bi.done()
+    return [bf, bi]
 
 
 def tier_c(run, thorough):
@@ -2496,7 +3056,9 @@ def tier_c(run, thorough):
     bm = Bounded(run, 'C12/mean-weights', 'C12/RDMs.mean/oracle/weights-unchanged',
                  'RDMs.mean on 2..3 RDMs x 3..4 conditions; every placement of 1 NaN pair (+ a second fixed one) ; weights None / '
                  'float64 C / Fortran / view / float32 / int, given as array or as name of an rdm_descriptor; weights with and '
-                 'without own NaNs', exhaustive=True, function='RDMs.mean')
+                 'without own NaNs; dimension sweep (classes dim-weights-*): weights int16 / uint8 / scaled by 1e-20, 1e+9 / nested '
+                 'list / nested tuple, dissimilarities scaled by 1e-20, 1e+9, 1 and 7 RDMs, the call made twice',
+                 exhaustive=True, function='RDMs.mean')
     for n_rdm, n_cond in ((2, 3), (3, 4)) if not thorough else ((2, 3), (3, 4), (2, 5)):
         n_pair = n_cond * (n_cond - 1) // 2
         for r in range(n_rdm):
@@ -2511,8 +3073,26 @@ def tier_c(run, thorough):
                             case = dict(seed=7 + r, n_rdm=n_rdm, n_cond=n_cond, nan_at=[[r, c], [0, 1]], weights=kind,
                                         by_name=by_name, w_nan_at=wn)
                             bm.check(orc_mean_weights, case, 'weights-' + kind + ('-by-name' if by_name else ''), function='RDMs.mean')
+    # dimension sweep: dtype / unit / container of the weights, unit of the dissimilarities, a single RDM, the call repeated
+    for n_rdm, n_cond in ((1, 3), (2, 3), (3, 4)) if not thorough else ((1, 3), (2, 3), (3, 4), (1, 5), (2, 5), (7, 4)):
+        n_pair = n_cond * (n_cond - 1) // 2
+        for r in range(n_rdm if thorough else 1):
+            for c in range(n_pair):
+                for kind in ('int16', 'uint8', 'f64-tiny', 'f64-huge', 'list', 'tuple', 'f64', 'none'):
+                    for by_name in (False, True):
+                        for unit, twice in ((1.0, False), (1e-20, False), (1e+9, False), (1.0, True)):
+                            if kind in ('f64', 'none') and unit == 1.0 and not twice and n_rdm in (2, 3) and n_cond < 5:
+                                continue       # a case of the base domain above
+                            if (kind == 'none' and by_name) or (kind in ('tuple',) and by_name and unit != 1.0):
+                                continue
+                            case = dict(seed=11 + r, n_rdm=n_rdm, n_cond=n_cond, nan_at=[[r, c], [0, 1]], weights=kind,
+                                        by_name=by_name, w_nan_at=[], unit=unit, twice=twice)
+                            cls = ('dim-weights-' + kind + ('-by-name' if by_name else '') + ('-single-rdm' if n_rdm == 1 else '')
+                                   + ('-twice' if twice else '') + ('' if unit == 1.0 else '-unit%g' % unit))
+                            bm.check(orc_mean_weights, case, cls, function='RDMs.mean')
     bm.done()
     bds.append(bm)
+    bds += tier_c_dims(run, thorough)
     return bds
 
 
@@ -2558,3 +3138,33 @@ def dev_dim_survey(thorough=True, only=None, flavours=None, out=None):
         with open(out, 'w') as f:
             json.dump(labels, f, indent=1, sort_keys=True)
     return labels
+
+
+def dev_pending(thorough=True):
+    """development helper: which '<label>@<family>' classes fail on this tree -> {label: family codes}.
+    (This is how PENDING_NEW / PENDING_REOBSERVED were produced on the unchanged tree: thorough and quick run, union.)"""
+    seen = {}
+
+    class _B:       # stands in for Bounded: records the input class of every failing registration, pending or not
+        def __init__(self, *a, **k):
+            self.domain = ''
+
+        def check(self, orc, case, input_class=None, nontrivial=True, function=None):
+            if case.get('watch') is not None:
+                label, fam = input_class.rsplit('@', 1)
+                seen.setdefault(label, set()).add(FAMILY_CODE[fam])
+
+        def done(self):
+            pass
+
+    class _R:
+        notes = []
+    g = globals()
+    keep = g['Bounded'], g['_pending']
+    g['Bounded'], g['_pending'] = _B, (lambda label, fam: False)
+    try:
+        tier_c_dims(_R(), thorough)
+    finally:
+        g['Bounded'], g['_pending'] = keep
+    order = ''.join(FAMILY_CODE[f] for f in FAMILIES)
+    return {k: ''.join(c for c in order if c in v) for k, v in sorted(seen.items())}
